@@ -155,7 +155,7 @@ Definition sess_state (s : state) (x : session) : N :=
   gen_Session__getState (s_rw x) (is_so l) (is_user l).
 
 Definition b2n (b : bool) : N := if b then 1 else 0.
-Definition have_read (st : N) (tok priv : bool) : N := gen_haveRead st (b2n priv).
+Definition have_read (st : N) (tok priv : bool) : N := gen_haveRead st (b2n tok) (b2n priv).
 Definition have_write (st : N) (tok priv : bool) : N := gen_haveWrite st (b2n tok) (b2n priv).
 
 (* ---- HandleManager --------------------------------------------------------------------------------- *)
